@@ -366,6 +366,12 @@ func (h *Handler) handleCopyMove(w http.ResponseWriter, r *http.Request) (status
 	if dst == src {
 		return http.StatusForbidden, errDestinationEqualsSource
 	}
+	if slashClean(dst) == slashClean(src) {
+		// The destination names the source with a different spelling
+		// ("/a/", "/a/.", "/b/../a"). Applying the Overwrite rule to it
+		// would delete the source.
+		return http.StatusForbidden, errDestinationEqualsSource
+	}
 
 	ctx := r.Context()
 
